@@ -75,3 +75,25 @@ mut("c18-unknown-maps-to-ok", "C18", NAMED, "            return cls.FAIL\n", "  
 mut("c18-busy-maps-to-fail", "C18", NAMED,
     "        (EmberStatus.NETWORK_BUSY, sl_Status.ZIGBEE_MAX_MESSAGE_LIMIT_REACHED),", "        (EmberStatus.NETWORK_BUSY, sl_Status.FAIL),")
 mut("c18-not-joined-dropped", "C18", NAMED, "        (EmberStatus.NOT_JOINED, sl_Status.NOT_JOINED),\n", "")
+
+# ---- C01 -------------------------------------------------------------------------------
+mut("c01-handle-ack-off-by-one", "C01", ASH,
+    "            ack_num = (frame.ack_num + ack_num_offset) % 8", "            ack_num = (frame.ack_num + ack_num_offset + 1) % 8",
+    checks=["C01", "C05"])
+mut("c01-retx-dup-delivered", "C01", ASH,
+    "        elif frame.re_tx:\n            # Retransmitted frames must be immediately ACKed even if they are out of\n            # sequence\n            self._write_frame(AckFrame(res=0, ncp_ready=0, ack_num=self._rx_seq))",
+    "        elif frame.re_tx:\n            # Retransmitted frames must be immediately ACKed even if they are out of\n            # sequence\n            self._write_frame(AckFrame(res=0, ncp_ready=0, ack_num=self._rx_seq))\n            self._ezsp_protocol.data_received(frame.ezsp_frame)")
+mut("c01-shield-removed", "C01", ASH,
+    "        await asyncio.shield(\n            create_eager_task(", "        await (\n            create_eager_task(")
+mut("c01-tx-modulo-16", "C05", ASH, "                        self._tx_seq = (self._tx_seq + 1) % 8", "                        self._tx_seq = (self._tx_seq + 1) % 16",
+    checks=["C05", "C03", "C01"])
+mut("c01-crc-not-checked", "C01", ASH,
+    "        if computed_crc != data[-2:]:", "        if False:", checks=["C01", "C02", "C03"])
+mut("c01-complete-on-any-ack", "C01", ASH,
+    "            if fut is None or fut.done():\n                continue\n\n            self._pending_data_frames[ack_num].set_result(True)",
+    "            if fut is None or fut.done():\n                for f2 in self._pending_data_frames.values():\n                    if not f2.done():\n                        f2.set_result(True)\n                continue\n\n            self._pending_data_frames[ack_num].set_result(True)",
+    checks=["C01", "C05"])
+mut("c01-nak-acks-frame", "C01", ASH,
+    "        self._cancel_pending_data_frames(NotAcked(frame=frame))",
+    "        for fut in self._pending_data_frames.values():\n            if not fut.done():\n                fut.set_result(True)",
+    checks=["C01", "C05"])
